@@ -151,6 +151,19 @@ CLAIMED = {
     note="Algorithms are definitional models (not a proof of Semi-NCA); order outputs are validated, not derived; a root that is not a "
          "vertex is outside the property; vertex and edge payloads are not modelled.",
     technique="Lean 4 proofs: mirror + refinement (container), definitional models on a verified reach, verified checkers; three-way correspondence"),
+ "C10": dict(
+    category="translation_validation",
+    text="Every output of transformation::ssa_transformation is judged by the Lean validator ssaCheck, kernel-proved sound: same "
+         "blocks/edges/positions (erasing versions gives the input), one phi operand per predecessor (plus the entry operand at the "
+         "entry), single assignment, every use names the reaching definition on every CFG path, and lock-step execution of the original "
+         "and the SSA form (phi nodes selecting by incoming edge) from every state for every number of steps - same positions, memory, "
+         "evaluated values, errors. Rejected outputs are reported with a diverging run or a path witness; success of the "
+         "transformation itself is observed on all generated functions.",
+    design_ref="DESIGN.md §6 C10",
+    note="The construction (dominators, frontiers, renaming) is not modelled: an accepted output is proved correct. Runs stay inside "
+         "one function up to the first fault, indirect branch or intrinsic. Input functions are unversioned and phi-free. Names used at "
+         "two widths are the known finding C10/flow/*/two-widths.",
+    technique="Lean-verified validator with an untrusted forward-flow certificate + simulation proof; run on the real SSA outputs"),
 }
 
 checks = []
